@@ -67,6 +67,7 @@ ANCHORS = [('optiland.tolerancing.core', 'Tolerancing.reset'), ('optiland.tolera
 
 M_NORESET = 'montecarlo-no-final-reset'
 M_INDEX = 'index-reset-loses-dispersion'
+M_SET = 'index-perturbation-drops-dispersion'
 EPS = float(np.finfo(float).eps)
 
 
@@ -439,7 +440,7 @@ def _vec_scale(got, want, sc):
 class Fresh:
     """A lens built from the spec + the tolerancing problem restated on it with public pieces only."""
 
-    def __init__(self, case, asbuilt=()):
+    def __init__(self, case, reset_idx=()):
         from optiland.optimization.operand import Operand
         self.case = case
         self.lens = L.build(case['spec'])
@@ -456,14 +457,13 @@ class Fresh:
             for c in case['comps']:
                 self.comp.add_variable(self.lens, c['kind'], **_kw(c['kw']))
             self.comp.operands = self.ops
-        if M_INDEX in asbuilt:
-            # as-built: every index perturbation has been reset once -> constant-index medium with the nominal index at
-            # the variable's wavelength
-            for p in case['perts']:
-                if p['kind'] == 'index':
-                    k = p['kw']['surface_number']
-                    n0 = float(np.ravel(self.lens.surface_group.surfaces[k].material_post.n(p['kw']['wavelength']))[0])
-                    self.lens.set_index(n0, k)
+        # as-built model of mechanism `index-reset-loses-dispersion`: the index perturbations listed in reset_idx have been
+        # reset once -> constant-index medium carrying the nominal index at the variable's wavelength
+        for j in reset_idx:
+            p = case['perts'][j]
+            k = p['kw']['surface_number']
+            n0 = float(np.ravel(self.lens.surface_group.surfaces[k].material_post.n(p['kw']['wavelength']))[0])
+            self.lens.set_index(n0, k)
 
     def perturb(self, idx_values):
         from optiland.optimization.variable import Variable
@@ -617,7 +617,7 @@ def check_case(case, rec):
     pnames = pert_names(case, nominal.lens)
     cnames = comp_names(case, nominal.lens)
     onames = op_names(case)
-    dispersive_index = [p for p in case['perts'] if p['kind'] == 'index' and
+    dispersive_index = [j for j, p in enumerate(case['perts']) if p['kind'] == 'index' and
                         nom_types[p['kw']['surface_number']] != 'IdealMaterial']
     if dispersive_index:
         rec.cls('index-perturbation-on-dispersive-medium')
@@ -717,7 +717,8 @@ def check_case(case, rec):
         rp = row_perts(r)
         got = op_tab[r]
         inj_here = (r + 1) in injected and not nC
-        sa_idx = idx_flag and family == 'SA'
+        # index perturbations on dispersive media that are NOT applied in this row have only been reset (SA)
+        only_reset = [j for j in dispersive_index if j not in [q for q, _ in rp]]
 
         def inject(v, mask):
             v = np.array(v, dtype=float)
@@ -726,8 +727,8 @@ def check_case(case, rec):
         if not (mode == 'failpoint' and nC):
             mask = np.isin(np.arange(nO), f2col) if inj_here else np.zeros(nO, dtype=bool)
             want = inject(Fresh(case).perturb(rp).compensate().values(), mask)
-            models = [((M_INDEX,), lambda: inject(Fresh(case, asbuilt=(M_INDEX,)).perturb(rp).compensate().values(), mask))] \
-                if sa_idx else []
+            models = [((M_INDEX,), lambda: inject(Fresh(case, reset_idx=only_reset).perturb(rp).compensate().values(), mask))] \
+                if only_reset else []
             close_mech(rec, 'row-reproduced', got, want, tol_row, op_scale(case, want, got, tol_row), models,
                        msg=f'{family} row {r}: recorded operands {got.tolist()} but a fresh nominal lens with the recorded '
                            f'perturbation values {rp} ({[pnames[j] for j, _ in rp]})' + (' + compensation' if nC else '')
@@ -739,8 +740,8 @@ def check_case(case, rec):
             # part of the statement): a NaN there is accepted, their count is bounded by the injections that fired.
             mask = (np.isnan(got) & np.isin(np.arange(nO), f2col)) if mode == 'failpoint' else np.zeros(nO, dtype=bool)
             want2 = inject(Fresh(case).perturb(rp).set_compensators(comp_tab[r]).values(), mask)
-            models = [((M_INDEX,), lambda: inject(Fresh(case, asbuilt=(M_INDEX,)).perturb(rp).set_compensators(comp_tab[r]).values(),
-                                                  mask))] if sa_idx else []
+            models = [((M_INDEX,), lambda: inject(Fresh(case, reset_idx=only_reset).perturb(rp).set_compensators(comp_tab[r]).values(),
+                                                  mask))] if only_reset else []
             close_mech(rec, 'row-consistent-with-recorded-compensation', got, want2, 1e-9,
                        op_scale(case, want2, got, 1e-9), models,
                        msg=f'{family} row {r}: recorded operands {got.tolist()} but the recorded perturbation {rp} + recorded '
@@ -759,7 +760,19 @@ def check_case(case, rec):
     # ---- nominal perturbation -------------------------------------------------------------------------------
     if mode == 'nominal':
         for r in range(n_rows):
-            models = [((M_INDEX,), lambda: Fresh(case, asbuilt=(M_INDEX,)).compensate().values())] if idx_flag else []
+            rp = row_perts(r)
+            applied = [j for j in dispersive_index if j in [q for q, _ in rp]]
+            only_reset = [j for j in dispersive_index if j not in applied]
+            cands = ([M_SET] if applied else []) + ([M_INDEX] if only_reset else [])
+
+            def nominal_model(flags, rp=rp, applied=applied, only_reset=only_reset):
+                # `index-perturbation-drops-dispersion`: applying the (nominal) index value through the public setter makes the
+                # medium constant-index; `index-reset-loses-dispersion`: so does the reset of one that is not applied in this row
+                f = Fresh(case, reset_idx=(only_reset if M_INDEX in flags else ()))
+                f.perturb([(j, v) for j, v in rp if (M_SET in flags or j not in applied)])
+                return f.compensate().values()
+            models = [(fl, (lambda fl=fl: nominal_model(fl))) for k in range(1, len(cands) + 1)
+                      for fl in itertools.combinations(cands, k)]
             t = 1e-6 if nC else 1e-12
             close_mech(rec, 'nominal-perturbation-reproduces-nominal' + ('-compensated' if nC else ''), op_tab[r], nom_vals, t,
                        op_scale(case, nom_vals, op_tab[r], t), models,
@@ -779,7 +792,7 @@ def check_case(case, rec):
 
     # ---- lens restored ---------------------------------------------------------------------------------------
     def model_vec(flags):
-        f = Fresh(case, asbuilt=flags)
+        f = Fresh(case, reset_idx=(dispersive_index if M_INDEX in flags else ()))
         if M_NORESET in flags and n_rows:
             f.perturb(row_perts(n_rows - 1))
             if nC:
